@@ -16,7 +16,7 @@ from . import cluster_units as CU
 from .common import call_name, short
 from .counters import check_coupling
 
-FLOORS = {'C02.P1': 4, 'C02.P2': 5, 'C02.P3': 3, 'C02.P4': 1}
+FLOORS = {'C02.P5': 1, 'C02.P1': 4, 'C02.P2': 5, 'C02.P3': 3, 'C02.P4': 1}
 
 PRIVATE_STATE = {'_clusters', '_resources', '_tasks', '_usage_data', '_ingest'}
 
@@ -93,8 +93,8 @@ def p5(repo, res):
                             'the machines set aside for a reservation are %s, not elements of the available pool: a '
                             'machine that is reserved for another observation (or busy) makes _add_idle_resource raise '
                             'after earlier machines have already moved -- the refused call leaves the pools changed' % short(P, 120))
-    if not n:
-        raise AnalysisError('no call of _add_idle_resource found (C02.P5 anchor moved)')
+    # (no call site at all: the floor of C02.P5 stops the run with exit 2 -- unless another rule has
+    # already reported what happened to the reservation code)
 
 
 # ------------------------------------------------------------------------ P1
